@@ -145,15 +145,27 @@ fn td_report<const P: u128>(rng: &mut Rng, maxvars: usize) -> (String, String) {
         let tt = |p: BddPtr| -> String {
             (0..(1usize << n)).map(|a| { let inst: Vec<bool> = (0..n).map(|x| (a >> x) & 1 == 1).collect(); if p.evaluate(&inst) { '1' } else { '0' } }).collect()
         };
+        // conditioning of the hash-identified store's result (and of its negation) on every literal
+        let mut sconds: Vec<String> = Vec::new();
+        for v in 0..n {
+            for val in [false, true] {
+                sconds.push(format!(
+                    "{}.{}",
+                    tt(rsdd::builder::TopDownBuilder::condition(&st, sd, VarLabel::new_usize(v), val)),
+                    tt(rsdd::builder::TopDownBuilder::condition(&st, sd.neg(), VarLabel::new_usize(v), val))
+                ));
+            }
+        }
         format!(
-            "P={} w={} hb={} ht={} hsem={} stt={} stt2={}",
+            "P={} w={} hb={} ht={} hsem={} stt={} stt2={} sconds={}",
             P,
             ws.join(","),
             d.semantic_hash(&map).value(),
             td.semantic_hash(&map).value(),
             sd.semantic_hash(&map).value(),
             tt(sd),
-            tt(sd2)
+            tt(sd2),
+            sconds.join(",")
         )
     });
     (head, r.unwrap_or_else(|e| e))
